@@ -1,6 +1,7 @@
 package checks
 
 import (
+	"runtime"
 	"encoding/json"
 	"fmt"
 	"reflect"
@@ -87,6 +88,15 @@ func markValue(v any, markers *[]string, keepLen bool) any {
 // reasonOnly assembles the message from the reason alone; the prefix keeps it non-empty
 // (an empty customised message makes the library fall back to its detailed format).
 func reasonOnly(e *openapi3.SchemaError) string { return "reason: " + e.Reason }
+
+// reasonOnlyYielding: the same, giving other goroutines a chance to run while it works (messages of requests that share
+// one Options value are rendered at overlapping times on a busy server).
+func reasonOnlyYielding(e *openapi3.SchemaError) string {
+	for i := 0; i < 3; i++ {
+		runtime.Gosched()
+	}
+	return "reason: " + e.Reason
+}
 
 var reDigits = regexp.MustCompile(`[0-9]+(\.[0-9]+)?`)
 var reQuoted = regexp.MustCompile(`"[^"]*"`)
